@@ -10,7 +10,7 @@ git -C /repo worktree add -q "$RT" HEAD || exit 2
 if ! git -C "$RT" apply "$PATCH"; then echo "patch does not apply"; git -C /repo worktree remove --force "$RT"; exit 2; fi
 mkdir -p "$VT"
 rsync -a --exclude .git --exclude 'replays/*' /verif/ "$VT"/
-cd "$VT" && VERIF_REPO="$RT" ./check "$PID" --tier "$TIER"
+cd "$VT" && VERIF_GEN_WRITE=1 VERIF_REPO="$RT" ./check "$PID" --tier "$TIER"
 RC=$?
 if [ $RC -ne 0 ]; then ls "$VT"/replays/ 2>/dev/null | head -3; for f in "$VT"/replays/*.json; do [ -f "$f" ] && head -c 1500 "$f"; done; fi
 git -C /repo worktree remove --force "$RT"
